@@ -230,3 +230,240 @@ def c13(chk):
                 break
     if outs:
         chk.sample(dict(case=scen[0][:400], impl=outs[0][:400], model=mouts[0][:300]))
+
+
+# ------------------------------------------------------------------ sequential network scripts (NetModel.v)
+
+def gen_netscript(rng, nn, length, w):
+    """Random op list over nodes 1..nn. w: weights dict for emphasis. Returns (node specs, ops)."""
+    names = [10, 10, 10, 20] if w.get("names") else [10]
+    nodes = {}
+    for i in range(1, nn + 1):
+        name = rng.choice(names)
+        alt = rng.choice([None, None, 10, 20, 30]) if w.get("names") else None
+        if alt == name:
+            alt = None
+        limit = rng.choice([None, None, 0, 1, 2, 3]) if w.get("limits") else None
+        nodes[i] = (name, alt, limit)
+    ops = []
+    cut = set()
+    def pair():
+        a = rng.randrange(1, nn + 1)
+        b = rng.choice([x for x in range(1, nn + 1) if x != a])
+        return a, b
+    i = 0
+    while i < length:
+        r = rng.random()
+        if r < w.get("fault", 0.0):
+            # fault block: partition(s), ops under the cut, heal, quiesce
+            a, b = pair()
+            ops.append(("P", a, b))
+            for _ in range(rng.randrange(0, 3)):
+                k = rng.random()
+                if k < 0.35:
+                    ops.append(("X", a, b) if rng.random() < 0.5 else ("X", b, a))
+                elif k < 0.6:
+                    ops.append(("R", rng.choice([a, b])))
+                elif k < 0.8:
+                    ops.append(("D", a, b) if rng.random() < 0.5 else ("D", b, a))
+                else:
+                    ops.append(("Q",))
+            if rng.random() < 0.8:
+                ops.append(("H", a, b))
+            ops.append(("Q",))
+            if ("H", a, b) != ops[-2]:
+                ops.append(("H", a, b))
+                ops.append(("Q",))
+            i += 3
+            continue
+        if r < w.get("fault", 0.0) + 0.5:
+            a, b = pair()
+            if rng.random() < w.get("pin", 0.1):
+                x = rng.choice(list(range(1, nn + 1)) + [b, b])
+                ops.append(("D", a, b, x))
+            else:
+                ops.append(("D", a, b))
+        elif r < w.get("fault", 0.0) + 0.65:
+            a, b = pair()
+            ops.append(("X", a, b))
+        elif r < w.get("fault", 0.0) + 0.65 + w.get("known", 0.1):
+            a, b = pair()
+            ops.append(("K", a, b, rng.choice(["high", "allowed", "never", "none"])))
+        elif r < w.get("fault", 0.0) + 0.65 + w.get("known", 0.1) + w.get("restart", 0.05):
+            ops.append(("R", rng.randrange(1, nn + 1)))
+        else:
+            ops.append(("Q",))
+        i += 1
+    ops.append(("Q",))
+    return nodes, ops
+
+
+def net_scenario(rng, nodes, ops):
+    nn = len(nodes)
+    def nodecmd(i, restart=False):
+        name, alt, limit = nodes[i]
+        c = "node %d key=%d name=n%d idle=3000 keepalive=1000 ctimeout=1000" % (i, 10 + i, name)
+        if alt is not None:
+            c += " alt=n%d" % alt
+        if limit is not None:
+            c += " maxconn=%d" % limit
+        if restart:
+            c += " fport=%d" % i
+        return c
+    cmds = ["seed=%d delay=%d" % (rng.randrange(1 << 30), rng.choice([500, 1000, 3000]))]
+    cmds += [nodecmd(i) for i in range(1, nn + 1)]
+    marks = []   # (op index, position of first 'peers' result, rpc positions)
+    for oi, op in enumerate(ops):
+        k = op[0]
+        pos_res = None
+        if k == "D":
+            pos_res = len(cmds)
+            cmds.append("connect %d %d%s" % (op[1], op[2], " pin=%d" % op[3] if len(op) > 3 else ""))
+            cmds.append("sleep 300")
+        elif k == "X":
+            cmds += ["disconnect %d %d" % (op[1], op[2]), "sleep 300"]
+        elif k == "R":
+            cmds += ["drop %d" % op[1], "sleep 200", nodecmd(op[1], True), "sleep 300"]
+        elif k == "K":
+            if op[3] == "none":
+                cmds.append("unknown %d %d" % (op[1], op[2]))
+            else:
+                # no address for High entries: background dialing is C13's subject, not this model's
+                cmds.append("known %d %d %s%s" % (op[1], op[2], op[3], " addr=none" if op[3] == "high" else ""))
+        elif k == "P":
+            cmds.append("part %d %d" % (op[1], op[2]))
+        elif k == "H":
+            cmds.append("heal %d %d" % (op[1], op[2]))
+        elif k == "Q":
+            cmds.append("sleep 4500")
+        ppos = len(cmds)
+        cmds += ["peers %d" % i for i in range(1, nn + 1)]
+        rpcs = []
+        if k == "Q":
+            for a in range(1, nn + 1):
+                for b in range(1, nn + 1):
+                    if a != b:
+                        rpcs.append((a, b, len(cmds)))
+                        cmds.append("rpc %d %d id=q%d size=50" % (a, b, oi))
+        marks.append((oi, pos_res, ppos, rpcs))
+    epos = len(cmds)
+    cmds += ["events %d" % i for i in range(1, nn + 1)]
+    cmds += ["ranks", "trace active"]
+    return "simnet " + " ; ".join(cmds), marks, epos
+
+
+def model_case(nodes, ops):
+    spec = ";".join("%d:%d:%s:%s" % (i, n, "-" if a is None else a, "-" if l is None else l) for i, (n, a, l) in sorted(nodes.items()))
+    toks = []
+    for op in ops:
+        toks.append(" ".join(str(x) for x in op))
+    return "netmodel %s | %s" % (spec, " / ".join(toks))
+
+
+def run_netscripts(chk, n, nn_choices, length, weights, tag, extra_monitor=None):
+    """Runs sequential scripts on fabric and model; compares dial results at every Dial and
+    listings / reachability at every Quiesce. Returns per-script records for extra monitors."""
+    scen, models, metas = [], [], []
+    for _ in range(n):
+        rng = chk.rng
+        nn = rng.choice(nn_choices)
+        nodes, ops = gen_netscript(rng, nn, length(rng), weights)
+        sc, marks, epos = net_scenario(rng, nodes, ops)
+        scen.append(sc)
+        models.append(model_case(nodes, ops))
+        metas.append((nodes, ops, marks, epos))
+    outs, parsed = run_scenarios(chk, scen, tag)
+    mouts = run_model(models)
+    records = []
+    for sc, mc, o, res, mo, (nodes, ops, marks, epos) in zip(scen, models, outs, parsed, mouts, metas):
+        if res is None:
+            continue
+        nn = len(nodes)
+        mres = mo.split(" | ")
+        if len(mres) != len(ops):
+            chk.broken.append("netmodel driver output malformed: " + mo[:200])
+            continue
+        chk.nontriv(sc)
+        ok = True
+        for (oi, pos_res, ppos, rpcs), mr in zip(marks, mres):
+            op = ops[oi]
+            mdial, mlist = mr.split(" L=")
+            mlists = dict(x.split(":") for x in mlist.split(";"))
+            listings = {i: res[ppos - 1 + (i - 1)] for i in range(1, nn + 1)}
+            if op[0] == "D":
+                r = res[pos_res - 1]
+                got = "err" if r.startswith("err") else ("ok" + r.split()[1] if r.startswith("ok") else r)
+                chk.count("dial:" + ("ok" if got.startswith("ok") else "err"))
+                # C03 monitors, model independent
+                if got.startswith("ok"):
+                    if got != "ok%d" % op[2]:
+                        chk.monitor_fail("a dial to the address of node %d returned identity %s" % (op[2], got), dict(case=sc[:2000], op=str(op)))
+                        ok = False
+                    if len(op) > 3 and op[3] != op[2]:
+                        chk.monitor_fail("a dial pinned to identity %d succeeded against node %d" % (op[3], op[2]), dict(case=sc[:2000], op=str(op)))
+                        ok = False
+                    if "listed=1" not in r:
+                        chk.monitor_fail("connect returned %s but that peer is not in the caller's connected set" % got, dict(case=sc[:2000], op=str(op), impl=r))
+                        ok = False
+                if got != mdial:
+                    chk.disagree(mc[:1500], "op %d %s -> %s" % (oi, op, got), "-> %s" % mdial, "simnet/netmodel-dial")
+                    ok = False
+                    break
+            if op[0] == "Q":
+                for i in range(1, nn + 1):
+                    if listings[i] != mlists[str(i)]:
+                        chk.disagree(mc[:1500], "after op %d %s node %d lists %s" % (oi, op, i, listings[i]), "lists %s" % mlists[str(i)], "simnet/netmodel-listing")
+                        ok = False
+                # C09 monitors: mutual listing and reachability
+                for a in range(1, nn + 1):
+                    la = listings[a].strip("[]").split(",")
+                    for b in range(1, nn + 1):
+                        if a == b:
+                            continue
+                        lb = listings[b].strip("[]").split(",")
+                        if (str(b) in la) != (str(a) in lb):
+                            chk.monitor_fail("after a quiet period node %d lists %d but not vice versa (%s / %s)" % (a, b, listings[a], listings[b]), dict(case=sc[:2000], op_index=oi))
+                            ok = False
+                for a, b, pos in rpcs:
+                    r = res[pos - 1]
+                    listed = str(b) in listings[a].strip("[]").split(",")
+                    if listed and not r.startswith("ok st=200"):
+                        chk.monitor_fail("node %d lists %d after a quiet period but an RPC to it fails: %s" % (a, b, r[:80]), dict(case=sc[:2000], op_index=oi))
+                        ok = False
+                    if not listed and r.startswith("ok"):
+                        chk.monitor_fail("RPC to an unlisted peer succeeded (%d -> %d)" % (a, b), dict(case=sc[:2000], op_index=oi))
+                        ok = False
+                if not ok:
+                    break
+            if op[0] == "X":
+                # C09: explicit disconnect removes the peer locally at once
+                if str(op[2]) in listings[op[1]].strip("[]").split(","):
+                    chk.monitor_fail("disconnect(%d) at node %d left the peer listed" % (op[2], op[1]), dict(case=sc[:2000], op_index=oi))
+                    ok = False
+        # events: alternation per peer
+        for i in range(1, nn + 1):
+            evs = [e for e in res[epos - 1 + (i - 1)].strip("[]").split(",") if e and e != "END"]
+            listed = {}
+            for e in evs:
+                if e.startswith("LAG"):
+                    continue
+                p = e[1:].split(":")[0]
+                if (e[0] == "+") == listed.get(p, False):
+                    chk.monitor_fail("peer events of node %d do not alternate for peer %s: %s" % (i, p, evs), dict(case=sc[:2000]))
+                    ok = False
+                    break
+                listed[p] = e[0] == "+"
+        records.append(dict(scenario=sc, ops=ops, nodes=nodes, res=res, ok=ok, marks=marks, epos=epos, out=o))
+        if extra_monitor:
+            extra_monitor(records[-1])
+    if outs:
+        chk.sample(dict(case=scen[0][:400], impl=outs[0][:400], model=mouts[0][:300]))
+    return records
+
+
+def adversary_c03(chk):
+    pass
+
+
+def adversary_c14(chk):
+    pass
